@@ -222,6 +222,7 @@ class Folder:
         self.functions = functions or {}
         self.steps = 0
         self.inlined = set()
+        self.inlined_fns = []
 
     # --- function lookup by callee -------------------------------------------------------------
     def lookup(self, call):
@@ -249,6 +250,8 @@ class Folder:
         env = {}
         for p, a in zip(fn.params, args):
             env[p["d"]] = a
+        if fn.full not in self.inlined:
+            self.inlined_fns.append(fn)
         self.inlined.add(fn.full)
         try:
             self.exec(fn.body, env, fn)
